@@ -212,6 +212,14 @@ def run(prop, tier):
         n1 = ast.parse(sources[o["id"]]).body[0].value
         table.append({"id": len(table) + 1, "t": codec.enc(n1), "h": o["h"], "route": "other-process",
                       "case": o["id"]})
+    # wild traces: every calc_ast_hash call the repository's own tests make
+    import wild
+    nw = 0
+    for r in wild.records(prop):
+        if r["pass"] == "hash" and r["in"]["k"] not in ("opaque", "malformed"):
+            table.append({"id": len(table) + 1, "t": r["in"], "h": r["h"], "route": "wild (repository tests)", "case": -1})
+            nw += 1
+    fams["wild (repository tests under the recorder)"] = {"hash_calls": nw, "suite": wild.suite_summary()}
     # TLC decides
     d = tlcrun.fresh_dir(common.outdir(prop, "val"))
     inf = os.path.join(d, "table.ndjson")
